@@ -309,6 +309,7 @@ func runC05(r *Run) {
 		r.c05Statuses(trans, true) // connections that negotiated the JSON codec decode the error body as JSON
 		r.c05DupBurst(trans)
 	}
+	r.c05StaleOnReplacedConn()
 }
 
 func (r *Run) c05Statuses(trans string, jsonCodec bool) {
@@ -709,4 +710,60 @@ func (r *Run) c07BurstBehindHandler(trans string) {
 	}
 	r.st.Evaluations++
 	r.count("c07.burst-behind-handler." + trans)
+}
+
+// c05StaleOnReplacedConn: the keepalive replaces a connection whose peer went silent (socket still open at the peer);
+// request ids restart on the new connection; a late answer the peer still sends on the OLD connection with the id of
+// a call waiting on the NEW one must not be returned to that call.
+func (r *Run) c05StaleOnReplacedConn() {
+	s := &session{tc: newTestClient(), v: 1, trans: "tcp"}
+	s.tcp = newTCPPeer()
+	defer s.close()
+	stop := make(chan struct{})
+	defer close(stop)
+	errc := make(chan error, 1)
+	go func() {
+		errc <- s.tc.dial(s.tcp.url(), 1, client.Keepalive(100*time.Millisecond), client.KeepaliveTimeout(250*time.Millisecond), client.DialTimeout(time.Second))
+	}()
+	old := s.tcp.accept(3 * time.Second)
+	if old == nil || !old.readHandshake(time.Second) || <-errc != nil {
+		return
+	}
+	// old connection: never answer; wait for the replacement
+	nw := s.tcp.accept(3 * time.Second)
+	if nw == nil || !nw.readHandshake(time.Second) {
+		r.violate(Violation{What: "setup: the silent connection was not replaced", Case: "c05 stale answer"})
+		return
+	}
+	go func() { // the new connection answers heartbeats; data requests are handed to the scenario
+		for {
+			select {
+			case <-stop:
+				return
+			default:
+			}
+			f := nw.readFrame(50 * time.Millisecond)
+			if f == nil {
+				if nw.closed {
+					return
+				}
+				continue
+			}
+			if f.Type == 1 && f.Cmd == 1 {
+				nw.send(respFrame(1, 1, f.Rid, 0, f.Body))
+			} else if f.Type == 1 {
+				old.send(respFrame(1, f.Cmd, f.Rid, 0, []byte("stale answer on the replaced connection")))
+				time.Sleep(100 * time.Millisecond)
+				nw.send(respFrame(1, f.Cmd, f.Rid, 0, []byte("fresh")))
+			}
+		}
+	}()
+	time.Sleep(50 * time.Millisecond)
+	res, ok := awaitDo(s.tc.doAsync(33, nil, 2*time.Second), 3*time.Second)
+	if !ok || res.pkt == nil || string(res.pkt.Body) != "fresh" {
+		r.violate(Violation{What: "a call on the new connection returned something other than its own answer: " + resultStr(res),
+			Case: "tcp: keepalive replaced a silent connection; the peer sends an answer with the same request id on the old connection first, then the real answer on the new one"})
+	}
+	r.st.Evaluations++
+	r.count("c05.stale-on-replaced-conn")
 }
